@@ -1,4 +1,5 @@
 """C15 Expected-claim checks accept exactly the tokens that carry those claims."""
+import re
 from .. import claims as CL
 from .. import facts as F
 from .. import skeleton as S
@@ -51,6 +52,10 @@ def run(tier, prop="C15", rules=("C15.R1", "C15.R2", "C15.R3"), floors=None):
         from .. import claims_sem
         for f in claims_sem.registration_contracts(facts):
             if f.rule != "C15.R5":
+                if f.ok is False and re.search(r"::(check_claim|extend_check_claims)$", f.where):
+                    # registering an expectation disturbs the validator table: a validator under the key takes the place of the comparison
+                    res.oblige(False)
+                    res.violate("C15.R5", f.where, f.construct, "registering an expected claim changes the validators (a validator under the claim's key replaces the comparison with the expected value): " + f.msg, file=f.file, line=f.line)
                 continue
             res.oblige(bool(f.ok))
             if f.ok:
